@@ -20,12 +20,13 @@ import (
 
 func init() {
 	register(&Prop{ID: "C14", Run: c14Run,
-		Rule: "foreach: item source {literal items, list query, dotted list query, query of a list inside a list (`nest[1]`), query of a SPARSE list the program itself fills through indexed paths (`xs[3]`; the slots in between are padding), leaf query, container query, list of containers, missing path} x NULL entries (YAML nulls, never-written slots, a null leaf; one, several, all of them — a null entry is an item) x variable {default, named} x body {ext trace, log, both} + logging child + failing position {none, top-level abort/ext-fail (first item), conditional child at the first flagged item, non-boolean condition}, with the direct predicates closed-form trace AND number of passes through the body == number of items (counted on listener events, whatever the body prints); loop: bound n in 0..6 x failure in iteration k (body or post) x counter written by post or body x with/without init; call: argsPath {default, single key, dotted 2 and 3, templated} x static/templated argument x nested callee with its own argsPath x failure {none, inner, outer} x pre-existing data at the path's parent; callrep: ONE call operation that runs m = 0..5 times with argument templates (top-level and nested) whose input changes between the runs — in a loop body (input = counter), in a forEach body (input = item; call directly among the body's operations or in a `steps` child; literal items / list query) or as the same operation value passed to Execute repeatedly — x argsPath x failure from the k-th run on: the m-th run must see the arguments rendered against the data of the m-th run (closed-form trace); defs: all sequences of length<=4 over {define f=first, define f=second, define g, call f, call g, call undefined}; nest: 1..3 iteration mechanisms nested in each other — forEach (literal items / list query whose list may hold null entries, default or custom variable) / loop (bound 0..3) / call, each holding the next one among its body's OPERATIONS or in a `steps` child — whose innermost body reads every variable in scope when it runs (call arguments, or a template operation printed by a callable), x optional ext trace per body x failure from the k-th innermost run on: closed-form trace = product of the layers' items in order up to the failure, variables and arguments gone, nothing else disturbed; rand: random nested programs (forEach in forEach — also over lists with null entries and over a null leaf —, loops and calls inside bodies, set/template bodies, conditions that may be blank, depth<=3) compared with the model and with the independent Go reference interpreter of c12_ref.go (direct predicate; the reference answers inside its domain: plain dotted key paths, container queries with at most one key). Every program runs twice (Go structs, generated YAML). Non-trivial: at least one iteration / call actually executes. Distinct = distinct canonical case JSON.",
+		Rule: "foreach: item source {literal items, list query, dotted list query, query of a list inside a list (`nest[1]`), query of a SPARSE list the program itself fills through indexed paths (`xs[3]`; the slots in between are padding), leaf query, container query, list of containers, missing path} x NULL entries (YAML nulls, never-written slots, a null leaf; one, several, all of them — a null entry is an item) x variable {default, named} x body {ext trace, log, both} + logging child + failing position {none, top-level abort/ext-fail (first item), conditional child at the first flagged item, non-boolean condition}, x the body WRITES INTO THE LIST IT ITERATES OVER (sources list, deep, nested, sparse, clist: a template operation overwrites one slot in place on every pass — a slot visited later, the current one, one visited before, the slot after the last —: the items are the entries the list had when the loop started) x a child of the body logs a template that FAILS WHILE IT IS EXECUTED after having produced output (the line is the text as it stands, the lines rendered after it are what they are without it) x the same forEach operation VALUE executed twice (the second run does what the first did) x a log operation after the forEach / after the call that reads the variable / the arguments through a TEMPLATE (gone for the template engine's snapshot as for Lookup), with the direct predicates closed-form trace AND number of passes through the body == number of items (counted on listener events, whatever the body prints) AND final data == data at loop start except for the written slot; first the smallest such records, then random ones; loop: bound n in 0..6 x failure in iteration k (body or post) x counter written by post or body x with/without init; call: argsPath {default, single key, dotted 2 and 3, templated} x static/templated argument x an argument (top-level and nested) whose template fails while it is executed after having produced output (it is passed as the text it is, the others rendered) x nested callee with its own argsPath x failure {none, inner, outer} x pre-existing data at the path's parent; callrep: ONE call operation that runs m = 0..5 times with argument templates (top-level and nested) whose input changes between the runs — in a loop body (input = counter), in a forEach body (input = item; call directly among the body's operations or in a `steps` child; literal items / list query) or as the same operation value passed to Execute repeatedly — x argsPath x failure from the k-th run on: the m-th run must see the arguments rendered against the data of the m-th run (closed-form trace); defs: all sequences of length<=4 over {define f=first, define f=second, define g, call f, call g, call undefined}; nest: 1..3 iteration mechanisms nested in each other — forEach (literal items / list query whose list may hold null entries, default or custom variable) / loop (bound 0..3) / call, each holding the next one among its body's OPERATIONS or in a `steps` child — whose innermost body reads every variable in scope when it runs (call arguments, or a template operation printed by a callable), x optional ext trace per body x failure from the k-th innermost run on: closed-form trace = product of the layers' items in order up to the failure, variables and arguments gone, nothing else disturbed; rand: random nested programs (texts now and then hold a template that fails while it is executed or does not parse; forEach in forEach — also over lists with null entries and over a null leaf —, loops and calls inside bodies, set/template bodies — some template operations write into a slot of one of the lists the program iterates over —, conditions that may be blank, depth<=3) compared with the model and with the independent Go reference interpreter of c12_ref.go (direct predicate; the reference answers inside its domain: plain dotted key paths, container queries with at most one key). Every program runs twice (Go structs, generated YAML). Non-trivial: at least one iteration / call actually executes. Distinct = distinct canonical case JSON.",
 		Assumptions: []string{
 			"template semantics owned by the model: literal text and {{ .a.b }} field chains of scalars; strconv.ParseBool",
 			"loop counters are written by the harness' own ext action `inc` (data[id]++, data[id_go] := data[id] < n, data[id_end] := !(data[id] < n)), mirrored by the model",
 			"container queries: Go map order is unspecified, so traces are compared as multisets and bodies have per-item disjoint effects",
 			"variable names / argument paths are not otherwise present in the data (the property's domain); bodies do not write below the loop variable",
+			"item source of a list query = the entries the list has when the forEach starts (a body that overwrites or appends slots of that list does not change which items the running loop visits)",
 		}})
 	evals["C14"] = c14Eval
 	shrinkers["C14"] = shrinkJSON
@@ -52,6 +53,44 @@ type c14FE struct {
 	Child bool    `json:"child"` // body has a child (order 5) logging C:<item>
 	Fail  string  `json:"fail"`  // "" | abort | extfail (top level, every item) | cabort | cext (child, order 1, conditional) | cond (child with non-boolean condition)
 	When  string  `json:"when"`  // condition of the failing child for non-clist sources: "" (none) | true | false
+	// > 0: the body WRITES INTO THE ITEM SOURCE while it is being iterated (sources list, deep, nested, sparse, clist): every
+	// pass overwrites slot Write-1 of the queried list IN PLACE — a template operation whose path is the indexed path
+	// of that slot (`xs[2]`); Write-1 == number of items is the slot after the last one (the list grows).  The slot may
+	// have been visited already, be the current one, or be still to come.  The items of the loop are the entries the
+	// list had WHEN THE LOOP STARTED: the pass for slot j is bound to the original entry, not to what an earlier pass
+	// put there, and there are exactly as many passes as there were items.
+	Write int `json:"write,omitempty"`
+	// the body has one more child (order 0, before the others) that logs a template which PARSES and FAILS WHILE IT
+	// IS BEING EXECUTED, after it has produced output (a field of a scalar): rendering a message is lenient — the line
+	// is the text as it stands — and every line rendered afterwards is what it is without that neighbour
+	Noise bool `json:"noise,omitempty"`
+	// the forEach operation VALUE is executed twice by the executor (never together with Write): the second run
+	// does what the first one did
+	Twice bool `json:"twice,omitempty"`
+	// the forEach is followed by a log operation that READS THE VARIABLE THROUGH A TEMPLATE (the data snapshot the
+	// template engine gets — another route than Lookup): gone means gone there too
+	After bool `json:"after,omitempty"`
+}
+
+const c14NoiseMsg = "N-{{ .other.nope }}-{{ .keep.x }}"
+
+func (p *c14FE) writable() bool {
+	switch p.Source {
+	case "list", "deep", "nested", "sparse", "clist":
+		return true
+	}
+	return false
+}
+
+// the path of the queried list (sources with a list)
+func (p *c14FE) listPath() string {
+	switch p.Source {
+	case "deep":
+		return "deep.er.xs"
+	case "nested":
+		return "nest[1]"
+	}
+	return "xs"
 }
 
 func c14VarName(v *string) string {
@@ -88,6 +127,18 @@ func (p *c14FE) text(i int) string {
 
 // norm brings a (possibly shrunk) record back into the domain
 func (p *c14FE) norm() {
+	defer func() {
+		// after the items are settled: the written slot is one of the list's, or the one after the last
+		if !p.writable() || p.Write < 0 || len(p.Items) == 0 {
+			p.Write = 0
+		}
+		if p.Write > len(p.Items)+1 {
+			p.Write = len(p.Items) + 1
+		}
+		if p.Write > 0 {
+			p.Twice = false
+		}
+	}()
 	if !p.nullable() {
 		p.Null = nil
 	}
@@ -114,7 +165,13 @@ func (p *c14FE) norm() {
 // for the sparse source, whose list the program itself writes)
 func (p *c14FE) data() W { return p.dataAt(false) }
 
-func (p *c14FE) dataAt(atLoop bool) W {
+func (p *c14FE) dataAt(atLoop bool) W { return p.dataWith(atLoop, 0) }
+
+// dataAfter: the document after a loop whose body started `passes` times: as it was when the loop started, except
+// for the slot the body writes into (which holds what the LAST pass put there)
+func (p *c14FE) dataAfter(passes int) W { return p.dataWith(true, passes) }
+
+func (p *c14FE) dataWith(atLoop bool, passes int) W {
 	d := map[string]any{"keep": map[string]any{"x": 1}, "other": "o"}
 	items := []any{}
 	for i, s := range p.Items {
@@ -123,6 +180,20 @@ func (p *c14FE) dataAt(atLoop bool) W {
 		} else {
 			items = append(items, s)
 		}
+	}
+	written := func(l []any) []any {
+		if p.Write > 0 && passes > 0 && len(l) > 0 {
+			v := "W-" + p.text(passes-1)
+			if p.Write-1 < len(l) {
+				l[p.Write-1] = v
+			} else {
+				l = append(l, v)
+			}
+		}
+		return l
+	}
+	if p.Source != "clist" {
+		items = written(items)
 	}
 	switch p.Source {
 	case "list":
@@ -150,7 +221,7 @@ func (p *c14FE) dataAt(atLoop bool) W {
 		for i, s := range p.Items {
 			l = append(l, map[string]any{"n": s, "bad": i < len(p.Bad) && p.Bad[i]})
 		}
-		d["xs"] = l
+		d["xs"] = written(l)
 	}
 	return plainWire(d)
 }
@@ -178,6 +249,9 @@ func (p *c14FE) prog() []c12Op {
 		op.Query = &c12VoR{Val: "no.such.path"}
 	}
 	body := &c12Act{Name: "body"}
+	if p.Write > 0 {
+		body.Ops = append(body.Ops, c12Op{K: "template", Tmpl: "W-" + p.ref(), Path: fmt.Sprintf("%s[%d]", p.listPath(), p.Write-1)})
+	}
 	if p.Log {
 		body.Ops = append(body.Ops, c12Op{K: "log", Msg: "L:" + p.ref()})
 	}
@@ -211,6 +285,9 @@ func (p *c14FE) prog() []c12Op {
 	if p.Child {
 		body.Children = append([]c12Act{{Name: "tail", Order: 5, Ops: []c12Op{{K: "log", Msg: "C:" + p.ref()}}}}, body.Children...)
 	}
+	if p.Noise {
+		body.Children = append(body.Children, c12Act{Name: "noise", Order: 0, Ops: []c12Op{{K: "log", Msg: c14NoiseMsg}}})
+	}
 	op.Body = body
 	var out []c12Op
 	if p.Source == "sparse" {
@@ -225,7 +302,14 @@ func (p *c14FE) prog() []c12Op {
 			}
 		}
 	}
-	return append(out, op)
+	if p.Twice {
+		out = append(out, op) // made one and the same operation value by the evaluation (share)
+	}
+	out = append(out, op)
+	if p.After {
+		out = append(out, c12Op{K: "log", Msg: "Z:" + p.ref()})
+	}
+	return out
 }
 
 // expected (r / l / t) events, in closed form; failed = the run must return an error; iterations = how often
@@ -256,6 +340,10 @@ func (p *c14FE) expect() (evs [][]any, failed bool, iterations int) {
 		}
 		if p.Fail == "abort" {
 			return evs, true, iterations
+		}
+		if p.Noise {
+			// the message cannot be rendered: the line is the text as it stands
+			evs = append(evs, []any{"l", c14NoiseMsg})
 		}
 		switch p.Fail {
 		case "cond":
@@ -385,7 +473,16 @@ type c14Call struct {
 	Inner    *string `json:"inner"`    // g's argsPath
 	Fail     string  `json:"fail"`     // "" | inner | outer
 	Sibling  bool    `json:"sibling"`  // data already holds another key under the path's parent
+	// one more argument whose template PARSES and FAILS WHILE IT IS EXECUTED after having produced output (a field of
+	// a scalar): rendering the arguments is lenient — that argument is the text as it stands, the others are
+	// rendered as they are without it
+	BadArg bool `json:"badArg,omitempty"`
+	// the call is followed by a log operation that READS THE ARGUMENTS THROUGH A TEMPLATE (the data snapshot the
+	// template engine gets — another route than Lookup): gone means gone there too
+	After bool `json:"after,omitempty"`
 }
+
+const c14BadArg = "B-{{ .name.nope }}-{{ .keep.x }}"
 
 func (p *c14Call) path() string {
 	if p.ArgsPath == nil {
@@ -425,6 +522,9 @@ func (p *c14Call) data() W {
 func (p *c14Call) prog() []c12Op {
 	ap, ip := p.path(), p.innerPath()
 	f := &c12Act{Name: "f", Ops: []c12Op{{K: "log", Msg: "f:{{ ." + ap + ".x }}/{{ ." + ap + ".sub.z }}/{{ ." + ap + ".n }}"}}}
+	if p.BadArg {
+		f.Ops[0].Msg += "/{{ ." + ap + ".bad }}/{{ ." + ap + ".sub.bad }}"
+	}
 	if p.Nested {
 		f.Children = append(f.Children, c12Act{Name: "inner", Order: 1, Ops: []c12Op{
 			{K: "call", Name: "g", ArgsPath: p.Inner, Args: plainWire(map[string]any{"y": "{{ ." + ap + ".x }}!"})}}})
@@ -441,11 +541,20 @@ func (p *c14Call) prog() []c12Op {
 	if p.Tmpl {
 		val = "{{ .name }}-{{ .keep.x }}"
 	}
-	return []c12Op{
+	args := map[string]any{"x": val, "n": 5, "sub": map[string]any{"z": "{{ .name }}"}}
+	if p.BadArg {
+		args["bad"] = c14BadArg
+		args["sub"] = map[string]any{"z": "{{ .name }}", "bad": c14BadArg}
+	}
+	out := []c12Op{
 		{K: "define", Name: "g", Body: g},
 		{K: "define", Name: "f", Body: f},
-		{K: "call", Name: "f", ArgsPath: p.ArgsPath, Args: plainWire(map[string]any{"x": val, "n": 5, "sub": map[string]any{"z": "{{ .name }}"}})},
+		{K: "call", Name: "f", ArgsPath: p.ArgsPath, Args: plainWire(args)},
 	}
+	if p.After {
+		out = append(out, c12Op{K: "log", Msg: "Z:{{ ." + ap + ".x }}/{{ ." + ip + ".y }}"})
+	}
+	return out
 }
 
 func (p *c14Call) expect() (evs [][]any, failed bool) {
@@ -453,7 +562,12 @@ func (p *c14Call) expect() (evs [][]any, failed bool) {
 	if p.Tmpl {
 		val = "N-1"
 	}
-	evs = append(evs, []any{"l", "f:" + val + "/N/5"})
+	if p.BadArg {
+		// the value of the argument that could not be rendered is its text (a value is printed, not rendered again)
+		evs = append(evs, []any{"l", "f:" + val + "/N/5/" + c14BadArg + "/" + c14BadArg})
+	} else {
+		evs = append(evs, []any{"l", "f:" + val + "/N/5"})
+	}
 	if p.Nested {
 		evs = append(evs, []any{"l", "g:" + val + "!"})
 		if p.Fail == "inner" {
@@ -467,6 +581,9 @@ func (p *c14Call) expect() (evs [][]any, failed bool) {
 	evs = append(evs, []any{"l", "f-tail"})
 	return evs, false
 }
+
+// what the log operation after the call prints: the arguments are gone, for the template engine too
+const c14CallAfter = "Z:<no value>/<no value>"
 
 // ---------------------------------------------------------------- repeated calls
 
@@ -729,6 +846,12 @@ func (g *c14Gen) fresh(prefix string) string {
 // refs that are guaranteed to hit a scalar or nothing
 func (g *c14Gen) ref() string {
 	r := g.r
+	if r.Intn(14) == 0 {
+		// a template that cannot be rendered: it fails while it is executed (a field of a scalar; in a message,
+		// after the output of what precedes it), or it does not parse (an unclosed action).  Where rendering is
+		// lenient the text stays as it is; a template operation fails.
+		return pick(r, []string{"{{ .name.nope }}", "{{ .name.nope }}", "{{ .name"})
+	}
 	pool := []string{"{{ .name }}", "{{ .keep.x }}", "{{ .nokey }}", "{{ .flagT }}", "{{ .cfg.mode }}", "{{ .args.x }}", "{{ .no.such }}", "lit"}
 	for _, v := range g.vars {
 		pool = append(pool, "{{ ."+v+" }}", "{{ ."+v+" }}")
@@ -755,8 +878,14 @@ func (g *c14Gen) simpleOps(allowFail bool) []c12Op {
 			Data: plainWire(map[string]any{pick(r, []string{"u", "v"}): r.Intn(3), "w": map[string]any{pick(r, []string{"p", "q"}): "s"}})})
 	}
 	if r.Intn(4) == 0 {
+		path := pick(r, []string{"tp.a", "tp." + g.ref(), "single"})
+		if r.Intn(6) == 0 {
+			// a slot of one of the lists the program's forEach operations iterate over (written in place; the last
+			// two are slots after the last one: the list grows)
+			path = pick(r, []string{"xs[1]", "xs[3]", "ns[2]", "deep.er.xs[2]", "xs[4]", "ns[5]"})
+		}
 		ops = append(ops, c12Op{K: "template", Tmpl: pick(r, []string{"T" + g.ref(), " pad " + g.ref() + " ", g.ref()}),
-			Path: pick(r, []string{"tp.a", "tp." + g.ref(), "single"}), Trim: r.Intn(2) == 0})
+			Path: path, Trim: r.Intn(2) == 0})
 	}
 	if allowFail && r.Intn(9) == 0 {
 		ops = append(ops, c12Op{K: "abort", Msg: "ab " + g.ref()})
@@ -894,16 +1023,34 @@ func c14RandData() W {
 
 func c14Run(c *Ctx) {
 	r := c.Rng
-	strs := []string{"a", "b", "c", "d", "e", "zz"}
+	strs := []string{"a", "b", "c", "d", "e", "zz", "f7", "g", "h9"}
+	// the smallest records first (so that a failure is reported on a minimal one): a body that writes into the list
+	// it iterates over — a slot visited later, the current one, one visited before, the slot after the last —, a body
+	// that logs a template failing at execution, the same forEach value executed twice
+	for _, src := range []string{"list", "deep", "nested", "sparse", "clist"} {
+		for w := 1; w <= 4; w++ {
+			c.Do("foreach", c14FE{Source: src, Items: []string{"a", "b", "c"}, Bad: []bool{false, false, false}, Log: true, Var: sp("it"), Write: w})
+		}
+	}
+	for _, src := range []string{"items", "list", "leaf", "cont"} {
+		c.Do("foreach", c14FE{Source: src, Items: []string{"a", "b"}, Bad: []bool{false, false}, Log: true, Child: true, Noise: true})
+		c.Do("foreach", c14FE{Source: src, Items: []string{"a", "b"}, Bad: []bool{false, false}, Log: true, Ext: true, Twice: true})
+	}
 	for i := 0; i < c.N(900); i++ {
 		c.Tick()
 		p := c14FE{Source: pick(r, []string{"items", "list", "list", "deep", "nested", "sparse", "leaf", "cont", "clist", "clist", "missing"}),
 			Ext: r.Intn(2) == 0, Log: r.Intn(4) > 0, Child: r.Intn(2) == 0}
 		n := r.Intn(5)
+		if r.Intn(8) == 0 {
+			n = pick(r, []int{5, 6, 7, 9}) // lists whose backing array has / has no spare capacity when the body appends
+		}
 		perm := r.Perm(len(strs))
 		for j := 0; j < n; j++ {
 			p.Items = append(p.Items, strs[perm[j]])
 			p.Bad = append(p.Bad, false)
+		}
+		if n >= 2 && p.Source != "cont" && r.Intn(8) == 0 {
+			p.Items[n-1] = p.Items[0] // an item may occur twice (literal items: one value referenced twice)
 		}
 		if p.nullable() && n > 0 && r.Intn(2) == 0 {
 			// null entries: YAML nulls in the list, never-written slots of a sparse list, a null leaf
@@ -938,6 +1085,12 @@ func c14Run(c *Ctx) {
 			p.Fail = pick(r, []string{"", "", "", "abort", "extfail", "cabort", "cext", "cond"})
 			p.When = pick(r, []string{"", "true", "false"})
 		}
+		if p.writable() && n > 0 && r.Intn(3) == 0 {
+			p.Write = 1 + r.Intn(n+1) // any slot of the list, or the one after the last
+		}
+		p.Noise = r.Intn(6) == 0
+		p.Twice = p.Write == 0 && r.Intn(8) == 0
+		p.After = r.Intn(3) == 0
 		c.Do("foreach", p)
 	}
 	for i := 0; i < c.N(500); i++ {
@@ -953,7 +1106,7 @@ func c14Run(c *Ctx) {
 	for i := 0; i < c.N(500); i++ {
 		c.Tick()
 		p := c14Call{ArgsPath: pick(r, paths), Tmpl: r.Intn(2) == 0, Nested: r.Intn(2) == 0,
-			Fail: pick(r, []string{"", "", "inner", "outer"}), Sibling: r.Intn(3) == 0}
+			Fail: pick(r, []string{"", "", "inner", "outer"}), Sibling: r.Intn(3) == 0, BadArg: r.Intn(5) == 0, After: r.Intn(3) == 0}
 		p.Inner = pick(r, []*string{sp("in"), sp("in.ner"), sp("x.y.z"), sp("p2")})
 		c.Do("call", p)
 	}
@@ -1122,32 +1275,72 @@ func c14Eval(c *Ctx, kind string, raw []byte) {
 		skipTr = multiset && failed && len(p.Items) > 1 // which key is visited first is unspecified
 		vname := c14VarName(p.Var)
 		nprog := len(prog)
+		// the forEach operation(s): the last entry of the program — the last two, one and the same operation value,
+		// when it is executed twice
+		nfe, tail := 1, 0
+		if p.After {
+			tail = 1
+		}
+		last := nprog - tail - 1 // index of the (last) forEach
+		if p.Twice {
+			nfe = 2
+			c.Dist("foreach:same-operation-value-executed-twice")
+			if len(want) > 0 {
+				want = append(append([][]any{}, want...), want...)
+			}
+			share = func(acts []pipeline.Action) { acts[last] = acts[last-1] }
+		}
+		if p.After {
+			// the variable is gone: the template engine prints what it prints for a key that is not there
+			c.Dist("foreach:variable-read-through-a-template-afterwards")
+			want = append(want, []any{"l", "Z:<no value>"})
+		}
+		if p.Write > 0 {
+			c.Dist("foreach:body-writes-into-the-item-source:" + p.Source)
+			switch {
+			case p.Write-1 >= len(p.Items):
+				c.Dist("foreach:body-writes-into-the-item-source:slot-after-the-last")
+			case p.Write-1 >= 1:
+				c.Dist("foreach:body-writes-into-the-item-source:slot-visited-later")
+			}
+		}
+		if p.Noise {
+			c.Dist("foreach:body-logs-a-template-that-fails-at-execution")
+		}
+		// what the loop leaves behind: the document as it was when the loop started, except for the slot the
+		// body writes into (these bodies have no other data effects)
+		final := p.dataAfter(iters)
 		direct = func(run *c12RunRes, v string) {
 			if len(run.errs) != nprog {
 				return
 			}
 			// the operations that come before the forEach (sparse source: the indexed writes) are not under test
-			for _, e := range run.errs[:nprog-1] {
+			for _, e := range run.errs[:last+1-nfe] {
 				if e != nil {
 					c.Dist("foreach:setup-failed(skipped)")
 					return
 				}
 			}
-			feErr := run.errs[nprog-1]
+			feErr := run.errs[last]
 			// "forEach runs its body once per item": as often as the item source has items — a null entry, a slot
 			// that was never written, an entry of a list inside a list are items —, counted on the listener's
 			// events alone (every pass through the body ends with the body's `steps`, or with the operation
 			// that failed), whatever the body prints
 			if roots, problem := c12Parse(run.rec); problem == "" && len(roots) == nprog {
-				passes := 0
-				kids := roots[nprog-1].kids
-				for i, k := range kids {
-					if k.label == "steps" || (i == len(kids)-1 && k.hasE) {
-						passes++
+				for _, rt := range roots[last+1-nfe : last+1] {
+					passes := 0
+					kids := rt.kids
+					for i, k := range kids {
+						if k.label == "steps" || (i == len(kids)-1 && k.hasE) {
+							passes++
+						}
 					}
+					c.Direct("forEach-body-once-per-item"+v, passes == iters,
+						map[string]any{"bodyStarted": passes, "items(up to the failing one)": iters, "source": p.Source, "items": atLoop, "trace": run.tr})
 				}
-				c.Direct("forEach-body-once-per-item"+v, passes == iters,
-					map[string]any{"bodyStarted": passes, "items(up to the failing one)": iters, "source": p.Source, "items": atLoop, "trace": run.tr})
+			}
+			if p.Twice {
+				c.Direct("forEach-error-iff-failure"+v, (run.errs[last-1] != nil) == failed, fmt.Sprint(run.errs[last-1]))
 			}
 			got := c14Project(run.tr)
 			if !multiset {
@@ -1169,7 +1362,8 @@ func c14Eval(c *Ctx, kind string, raw []byte) {
 			// "when either finishes, normally or with an error, the variable … [is] gone"
 			c.Direct("forEach-variable-gone"+v, run.data.Lookup(vname) == nil, map[string]any{"var": vname, "data": run.dataWire()})
 			// "… and the mechanism itself has disturbed no other data" (these bodies have no data effects)
-			c.Direct("forEach-no-other-data-disturbed"+v, canon(run.dataWire()) == canon(atLoop), run.dataWire())
+			c.Direct("forEach-no-other-data-disturbed"+v, canon(run.dataWire()) == canon(final),
+				map[string]any{"after": run.dataWire(), "expected": final})
 		}
 	case "loop":
 		var p c14Loop
@@ -1199,14 +1393,25 @@ func c14Eval(c *Ctx, kind string, raw []byte) {
 		}
 		data, prog = p.data(), p.prog()
 		want, failed := p.expect()
+		if p.After {
+			want = append(want, []any{"l", c14CallAfter})
+			c.Dist("call:arguments-read-through-a-template-afterwards")
+		}
+		ncall := 3
+		if p.After {
+			ncall = 4
+		}
 		c.Nontrivial()
 		c.Dist("call:path:" + p.path())
 		c.Dist("call:fail:" + p.Fail)
+		if p.BadArg {
+			c.Dist("call:an-argument-template-fails-at-execution")
+		}
 		direct = func(run *c12RunRes, v string) {
 			got := c14Project(run.tr)
 			// "call runs the named callable with its rendered arguments visible at the arguments path"
 			c.Direct("call-arguments-readable-inside"+v, canon(got) == canon(want), map[string]any{"got": got, "want": want})
-			c.Direct("call-error-iff-failure"+v, len(run.errs) == 3 && run.errs[0] == nil && run.errs[1] == nil && (run.errs[2] != nil) == failed,
+			c.Direct("call-error-iff-failure"+v, len(run.errs) == ncall && run.errs[0] == nil && run.errs[1] == nil && (run.errs[2] != nil) == failed,
 				fmt.Sprint(run.errs))
 			// "when [it] finishes, normally or with an error, … the arguments are gone"
 			c.Direct("call-arguments-gone"+v, run.data.Lookup(p.path()) == nil, map[string]any{"path": p.path(), "data": run.dataWire()})
